@@ -118,12 +118,13 @@ PrevHash(e) ==
 
 HeavyChecks(s1, s2, e) ==
   LET t == s2.tree
-      wfn == IF Has(e, "img") THEN WFNames(e.img) ELSE <<>>
+      C == IF Has(e, "img") THEN SafeChains(e.img) ELSE <<>>     \* every chain of the image, followed once
+      wfn == IF Has(e, "img") THEN WFNamesC(e.img, C) ELSE <<>>
   IN
   << <<"C01", "api.walk", ApiOK(e) /\ e.api.walk = WalkDump(t), TRUE>>,
      <<"C01", "api.ls", ApiOK(e) => (Has(e.api, "ls") => e.api.ls = LsDump(t)), FALSE>>,
      <<"C01", "api.entry", ApiOK(e) => (Has(e.api, "ent") => e.api.ent = EntDump(t)), FALSE>>,
-     <<"C01", "abs", Has(e, "img") => (AbsOK(e.img) /\ Abs(e.img) = t), TRUE>>,
+     <<"C01", "abs", Has(e, "img") => (AbsOKC(e.img, C) /\ AbsC(e.img, C) = t), TRUE>>,
      <<"C02", "reopen.strict",
         Has(e, "reopen") => (ReopenOK(e, "strict") /\ e.reopen.strict.ok.walk = WalkDump(t)), TRUE>>,
      <<"C02", "reopen.permissive",
